@@ -41,6 +41,8 @@ def jobs(tier, seed):
                    "budget": {"pause": 1, "unpause": 1, "cancel": 1}, "max_states": 400000})
     for spec in [wl("chain3"), wl("multitask"), wl("fail_mid"), wl("poll", 1)]:
         js.append({"label": f"{spec[0]}{spec[1]}|pause1,unpause1", "wl": spec, "budget": {"pause": 1, "unpause": 1}})
+    js.append({"label": "region_diamond|cancel-region-anywhere", "wl": wl("region_diamond"), "budget": {"cancelregion": 1}})
+    js.append({"label": "milestone2|all-orders,noack1", "wl": wl("milestone2"), "budget": {"noack": 1}})
     for spec in [wl("chain3"), wl("fail_mid"), wl("continue_on_fail")]:
         js.append({"label": f"{spec[0]}{spec[1]}|oprestart1", "wl": spec, "budget": {"oprestart": 1}})
     if tier == "quick":
